@@ -684,7 +684,7 @@ PROPS["C02"] = dict(
     rule=("daemon engine: 40 (quick) / 400 (thorough) acknowledged transfers, files of 0, 1, seg-1, seg, seg+1, 3 seg, 5 seg+7 octets, segment 32/64/128, limit 3/4, timeouts 1-3 s, "
           "deferred / immediate NAK with delay 0 / 300 ms, closure, CRC on/off; fault plans of fewer than `limit` faults: drop / duplicate / delay (50-450 ms) placed either on PDU "
           "indices of each direction or on the 1st, 2nd ... transmission of a PDU kind (metadata, data, EOF, ACK, NAK, Finished). recv / send engines as in C04/C07 for the "
-          "per-side steps, plus theorem-shaped loop schedules whose oracles are the loop theorems' conclusions evaluated on the real transactions: nak_loop (40 quick / 400 thorough receivers, limit 3-5: rounds in the second period of the NAK timer, the link lets through part of what is missing, a duplicate or nothing, never limit-1 fruitless rounds in a row nor limit inactivity periods without a delivery; oracles nak_loop_within_limits, nak_loop_completes), fin_loop (every fourth of those: the Finished PDU lost up to limit-1 times, oracle fin_loop_repeats), md_loop (another fourth: data and EOF in, the Metadata missing, the NAK carrying the 0-0 marker repeated up to limit-1 times, then the Metadata arrives; oracles md_loop_repeats, md_loop_completes), eof_loop (30 / 300 senders, a third of them cancelled: the EOF lost up to limit-1 times, oracle eof_loop_repeats). Non-trivial = a routing line with at least one delivered PDU / a PDU emitted."
+          "per-side steps, plus theorem-shaped loop schedules whose oracles are the loop theorems' conclusions evaluated on the real transactions: nak_loop (40 quick / 400 thorough receivers, limit 3-5: rounds in the second period of the NAK timer, the link lets through part of what is missing, a duplicate or nothing, never limit-1 fruitless rounds in a row nor limit inactivity periods without a delivery; oracles nak_loop_within_limits, nak_loop_completes; one loop in three starts with a Suspend.request / Resume.request pair in mid-recovery and counts the fairness conditions from the resume, as C19_resume_lossy_rounds does), fin_loop (every fourth of those: the Finished PDU lost up to limit-1 times, oracle fin_loop_repeats), md_loop (another fourth: data and EOF in, the Metadata missing, the NAK carrying the 0-0 marker repeated up to limit-1 times, then the Metadata arrives; oracles md_loop_repeats, md_loop_completes), eof_loop (30 / 300 senders, a third of them cancelled: the EOF lost up to limit-1 times, oracle eof_loop_repeats). Non-trivial = a routing line with at least one delivered PDU / a PDU emitted."
           " net engine (300 quick / 3000 thorough two-party histories): one real SendTransaction and one real RecvTransaction joined by a simulated link that delivers only PDUs the other side emitted (in order, lost, duplicated, reordered, as stragglers), random schedules of transmissions, deliveries, timer expiries and user requests at both sides, then a loss-free fair phase on the shared virtual clock until both have ended; every call is answered in lockstep by the Lean sender and receiver models (ops net s / net r), the per-side oracles of the send / recv engines keep running, and two-party oracles are added: C02 recovers / same_outcome (acknowledged mode, losses confined to a zero-time phase, default handlers: both sides report success), C03 net_bounded / net_never_stuck, C04 sender_success_only_after_receiver, C01 two_party_file."),
     assumptions=["bounded faults: fewer than `limit` faults per transfer, delays below the timers (as the property states)"],
     unproved=["one theorem for the whole transfer over a lossy fair schedule of both models and the link: proved are 'delivery implies completion' (receiver and two-party model), every single-loss round (lost data, EOF, Finished / ACK, Metadata) through both models and the link, and the NAK loop over any fair lossy schedule (C02_lossy_rounds_fair, C02_two_party_nak_loop: limits derived from fairness) the EOF / Finished / Metadata retransmission loops up to the limit (C02_lost_eofs_round, C02_lost_finisheds_round, C02_lost_metadatas_round) and the phase boundaries (C02_from_eof_lossy_rounds, C02_completion_then_lost_finisheds) - each phase and each boundary on its own; interleavings of the phases (a NAK loop while the EOF is still unacknowledged or the Metadata still missing) and the sender's inactivity limit while it waits for NAKs are bounded by C03 / C17 and checked dynamically by the daemon and net engines"],
